@@ -256,7 +256,8 @@ func runC16(seed uint64, n int, tier string) {
 // ---------------------------------------------------------------- reader
 
 type c16Read struct {
-	b   []byte
+	b   []byte // copy taken when the read returned
+	raw []byte // the slice the read returned, kept: the bytes a read returned stay those bytes
 	err error
 }
 
@@ -288,7 +289,7 @@ func startC16Reader(cl *c16Client, n int) *c16Reader {
 			}
 			cp := append([]byte(nil), b...)
 			rd.mu.Lock()
-			rd.reads = append(rd.reads, c16Read{b: cp, err: err})
+			rd.reads = append(rd.reads, c16Read{b: cp, raw: b, err: err})
 			rd.total += len(cp)
 			if err != nil {
 				rd.endAt = time.Now()
@@ -605,6 +606,13 @@ func runC16Case(id string, c *c16Case) {
 	}
 	if !bytes.Equal(received, writes) {
 		fail("write-stream", "the peer received something else than what was written: %s", c16Diff(received, writes))
+	}
+	for i, r := range reads {
+		if !bytes.Equal(r.raw, r.b) {
+			fail("returned-slice-overwritten", "the %d bytes read %d returned were overwritten by later reads (a consumer that keeps the slices it gets loses them): returned %s, now %s",
+				len(r.b), i, c16Trunc(r.b), c16Trunc(r.raw))
+			break
+		}
 	}
 	for i, r := range reads {
 		switch {
